@@ -15,6 +15,7 @@ import (
 	"bufio"
 	"context"
 	"encoding/json"
+	"errors"
 	"flag"
 	"fmt"
 	"os"
@@ -211,6 +212,10 @@ func runScenario(root string, sc scenario) outcome {
 	for _, op := range sc.ops {
 		fmt.Println("OP " + op)
 		if err := w.apply(op, sc); err != nil {
+			if errors.Is(err, errNotEnabled) { // a scripted schedule the code under test does not admit: stop scripting here
+				w.notes = append(w.notes, fmt.Sprintf("script cut at %s: %v", op, err))
+				break
+			}
 			o.err = fmt.Errorf("op %s: %w", op, err)
 			return o
 		}
@@ -615,6 +620,7 @@ func scChild(args []string) {
 	from := fs.Int("from", 0, "")
 	to := fs.Int("to", 0, "")
 	replay := fs.String("replay", "", "")
+	fs.BoolVar(&tlLock, "tllock", false, "")
 	fs.Parse(args)
 	logger.SetLevel(zap.FatalLevel)
 	root, err := os.MkdirTemp("", "c07-")
@@ -662,8 +668,11 @@ func scChild(args []string) {
 func runChildren(o vh.Opts, total int, handle func(scResult), crashed func(line, what string)) {
 	self, _ := os.Executable()
 	next := 0
-	for restarts := 0; (next < total || (o.Replay != "" && restarts == 0)) && restarts < 20; restarts++ {
-		args := []string{"sc-child", "-seed", fmt.Sprint(o.Seed), "-from", fmt.Sprint(next), "-to", fmt.Sprint(total)}
+	crashes := 0
+	for rounds := 0; (next < total || (o.Replay != "" && rounds == 0)) && crashes < 20; rounds++ {
+		// a fresh process every few hundred scenarios: a world leaves file descriptors and parked goroutines behind
+		upto := min(next+400, total)
+		args := []string{"sc-child", "-seed", fmt.Sprint(o.Seed), "-from", fmt.Sprint(next), "-to", fmt.Sprint(upto), fmt.Sprintf("-tllock=%v", tlLock)}
 		if o.Replay != "" {
 			args = append(args, "-replay", o.Replay)
 		}
@@ -699,7 +708,7 @@ func runChildren(o vh.Opts, total int, handle func(scResult), crashed func(line,
 		err := cmd.Wait()
 		cancel()
 		if !open {
-			if err != nil && next < total {
+			if err != nil && next < upto {
 				crashed("", "scenario child failed between scenarios: "+err.Error()+" | "+lastLines(stderr.String(), 8))
 				return
 			}
@@ -709,6 +718,7 @@ func runChildren(o vh.Opts, total int, handle func(scResult), crashed func(line,
 			continue
 		}
 		// died inside a scenario
+		crashes++
 		line := strings.TrimSuffix(header, "ops=") + "ops=" + strings.Join(ops, ",")
 		crashed(line, lastLines(stderr.String(), 14))
 		next++
@@ -735,6 +745,10 @@ func main() {
 	chAC := vh.NewChannel("aconc.trace", "the same runs seen from the active index: every index-worker and data-provider step with the value the hook saw (block index, ids kept, LIDs queued, |mapping|, |ids|, |token list|) must be a path of SV.ActiveConc.step and the model must predict every search result and fetch outcome; non-trivial = a reader overlaps an unfinished bulk")
 	orc := vh.NewOracle("sched.property", "C07 on the scheduled runs (in child processes): returned ids belong to submitted bulks, are in range and satisfy the query; fetches neither fail nor miss an id indexed before the provider; every acknowledged document is in the sealed fraction byte for byte; no thread is left that can never finish; the process does not die; non-trivial = as for the channels")
 
+	if ans, err := vh.AskDriver(o.Driver, []string{"cfg"}); err == nil && len(ans) == 1 {
+		tlLock = strings.Contains(ans[0], "tlLock=1")
+		rep.Note("code under test as extracted: %s", ans[0])
+	}
 	seenClass := map[string]bool{}
 	handle := func(r scResult) {
 		if r.Err != "" {
@@ -792,7 +806,7 @@ func main() {
 			runChildren(o, 0, handle, crashed)
 		}
 	} else {
-		runChildren(o, len(scripted())+o.Pick(300, 6000), handle, crashed)
+		runChildren(o, len(scripted())+o.Pick(1000, 20000), handle, crashed)
 		runRace(rep, o, "")
 	}
 	rep.AddChannel(chPF, o.Driver)
